@@ -222,3 +222,65 @@ func TestC11_MirroredModel(t *testing.T) {
 		rec.Case(fmt.Sprintf("%d|%s", size, strings.Join(trace, ",")), !pow2 && wrapped, cls, map[string]any{"requested": req, "size": size, "ops": trace})
 	})
 }
+
+// TestC11_DestroyTwice: a buffer that was destroyed owns nothing any more; destroying it again must leave a buffer created
+// in the meantime (which the kernel usually places at the very same addresses) fully mapped and mirrored.
+func TestC11_DestroyTwice(t *testing.T) {
+	rec := evid.For("C11")
+	page := syscall.Getpagesize()
+	vt.Check(t, 60, func(t *rapid.T) {
+		size := rapid.SampledFrom([]int{page, 2 * page, 3 * page, 8 * page, 1 << 20}).Draw(t, "size")
+		a, err := sbytes.NewMirroredBuffer(size, false)
+		if err != nil {
+			t.Fatalf("NewMirroredBuffer: %v", err)
+		}
+		ca := a.Claim(1)
+		addrA := uintptr(unsafe.Pointer(&ca[0]))
+		if err := a.Destroy(); err != nil {
+			t.Fatalf("Destroy: %v", err)
+		}
+		var others []*sbytes.MirroredBuffer
+		for i, n := 0, rapid.IntRange(1, 3).Draw(t, "others"); i < n; i++ {
+			b, err := sbytes.NewMirroredBuffer(size, rapid.Bool().Draw(t, "prefault"))
+			if err != nil {
+				t.Fatalf("NewMirroredBuffer: %v", err)
+			}
+			others = append(others, b)
+		}
+		defer func() {
+			for _, b := range others {
+				_ = b.Destroy()
+			}
+		}()
+		sameRange := false
+		for i, b := range others {
+			c := b.Claim(b.Size())
+			if uintptr(unsafe.Pointer(&c[0])) == addrA {
+				sameRange = true
+			}
+			for k := range c {
+				c[k] = byte(i*7 + k)
+			}
+			b.Commit(len(c))
+		}
+		for k := 0; k < rapid.IntRange(1, 2).Draw(t, "again"); k++ {
+			_ = a.Destroy() // whatever it returns: it owns nothing
+		}
+		for i, b := range others {
+			if !mapsMention(b.Name()) {
+				t.Fatalf("after destroying an already destroyed buffer a second time, the mappings of another live buffer of the same size (%d bytes, same address range=%v) are gone from /proc/self/maps", size, sameRange)
+			}
+			// its committed bytes are intact and the mirror still works: consume half, claim across the end
+			b.Consume(b.Size() / 2)
+			c := b.Claim(b.Size() / 2)
+			if len(c) != b.Size()/2 {
+				t.Fatalf("live buffer %d: Claim(%d) returned %d bytes", i, b.Size()/2, len(c))
+			}
+			c[0] = 0xA5 // faults if the pages are gone
+			if c[0] != 0xA5 {
+				t.Fatalf("live buffer %d lost its memory", i)
+			}
+		}
+		rec.Case(fmt.Sprintf("destroytwice|%d|%d|%v", size, len(others), sameRange), sameRange, []string{"destroy-twice-with-a-live-buffer-in-the-same-range"}, map[string]any{"size": size, "others": len(others), "same_address_range": sameRange})
+	})
+}
